@@ -43,7 +43,7 @@ def run2(ctx):
             behs += st
             ctx.log("  + %d distinct post-Import state witnesses" % len(st))
     d = 20 if q else 30
-    for w, off in ((0, 0), (5, 6)):
+    for w, off in ((0, 6), (5, 0)):   # negative times with OOO + compaction only in the exhaustive configs (see KF-C20-8)
         if not ctx.want("sim"):
             continue
         sim = ctx.tlc("db", "Db", "SIM_c53.cfg", simulate=(20 if q else 1200), depth=6 * d, workers=8,
